@@ -1,4 +1,5 @@
 F = "linker-utils/src/x86_64.rs"
+A = "linker-utils/src/aarch64.rs"
 SPEC = dict(
     id="C12",
     level_text="Bounded model checking, exhaustive in the value dimension: for a symbolic r_type drawn from the reference "
@@ -7,13 +8,15 @@ SPEC = dict(
                "field (no silent truncation).",
     level_note="Reference interval table transcribed from binutils howto tables and lld's relocate() (cited in the harness); "
                "Kani/CBMC trusted; format! stubbed.",
-    overlays=[(F, "harness/linker-utils/x86_64.rs")],
-    jobs=4,
+    overlays=[(F, "harness/linker-utils/x86_64.rs"), (A, "harness/linker-utils/aarch64.rs")],
+    jobs=6,
     harnesses=[
         dict(fn="c12_x86_64_ranges", file=F, timeout=600, witness=True),
         dict(fn="c12_x86_64_ranges_known_rows", file=F, timeout=600),
         dict(fn="c12_x86_64_no_check_top_value", file=F, timeout=600),
         dict(fn="c12_x86_64_reference_covers_table", file=F, timeout=300),
+        dict(fn="c12_aarch64_ranges", file=A, timeout=900),
+        dict(fn="c12_aarch64_ranges_known_rows", file=A, timeout=600),
     ],
     functions_encoded=["linker_utils::x86_64::relocation_from_raw", "elf::RelocationKindInfo::write_to_buffer",
                        "RelocationKindInfo::verify", "AllowedRange::contains", "AllowedRange::from_bit_size"],
